@@ -1,6 +1,7 @@
 #!/venv/bin/python
 """Mutation self-test of the checkers: every variant (one edit on a scratch copy of /repo's yarl package, which still
-compiles) must be reported by the expected property check with the expected rule; the unchanged copy must be silent.
+compiles) must be reported by the expected property check with the expected rule; the unchanged copy and every behaviour-preserving
+variant (BENIGN edits, benign/*.diff refactorings) must be silent.
 
 usage: selftest/run.py [-j N] [-k substring] [--list]
 Scratch copies live under a mkdtemp() directory outside /repo and /verif and are removed after each variant."""
@@ -33,6 +34,18 @@ def seeded_variants():
             rules = {p: r.split()[0].split("/")[0] for p, r in m["detected_by"].items()}
             for prop, rule in rules.items():
                 out.append((f"seeded-{d}-{prop}", [prop], rule, None, os.path.join(base, d, "patch.diff"), None))
+    return out
+
+
+def refactor_variants():
+    """Behaviour-preserving refactorings written by independent sub-agents (benign/*.diff): every check must stay silent
+    on every one of them (exit 0, no VIOLATION, no ANALYSIS-ERROR)."""
+    out = []
+    base = os.path.join(VERIF, "benign")
+    for f in sorted(os.listdir(base)) if os.path.isdir(base) else []:
+        if f.endswith(".diff"):
+            for n in range(1, 21):
+                out.append((f"refactor-{f[:-5]}-C{n:02d}", [f"C{n:02d}"], None, None, os.path.join(base, f), None))
     return out
 
 
@@ -89,7 +102,7 @@ def main():
     ap.add_argument("-k", default="")
     ap.add_argument("--list", action="store_true")
     a = ap.parse_args()
-    todo = [m for m in MUTANTS + BENIGN + seeded_variants() if a.k in m[0] or a.k in ",".join(m[1])]
+    todo = [m for m in MUTANTS + BENIGN + seeded_variants() + refactor_variants() if a.k in m[0] or a.k in ",".join(m[1])]
     if a.list:
         for m in todo:
             print(m[0], m[1], m[2])
